@@ -49,6 +49,10 @@ type RemotePkg struct {
 	Extras []NodeSpec `json:"extras,omitempty"`
 }
 
+// IsDeprecated: the registry attaches a deprecation notice to this version
+// (a reason, a link, or both).
+func (v RegVersion) IsDeprecated() bool { return v.Deprecated != "" || v.Link != "" }
+
 func (p RemotePkg) Addr() string { return p.Base + p.Query }
 
 // SourceString prints the source address of sub-path sub in this package.
@@ -112,6 +116,7 @@ func pkgFiles(id int, r *fw.Rand) map[string]string {
 		"mod/sub/main.tf":  fmt.Sprintf("# mod/sub of content %d\n", id),
 		"other/main.tf":    fmt.Sprintf("# other of content %d\n", id),
 		"other/data/x.txt": "x",
+		"mod/c++/main.tf":  fmt.Sprintf("# mod/c++ of content %d\n", id),
 	}
 	if r != nil && r.Chance(1, 3) {
 		f["mod/a b.tf"] = "spaced"
@@ -199,10 +204,16 @@ func RandomWorld(r *fw.Rand, o WorldOpts) World {
 			rv := RegVersion{V: WorldVersions[perm[k]], Source: SrcRef{Pkg: r.Intn(np)}}
 			if r.Chance(1, 3) {
 				rv.Source.Sub = "mod"
+			} else if r.Chance(1, 5) {
+				// a directory name with a character that means something else in a query string
+				rv.Source.Sub = "mod/c++"
 			}
 			if r.Chance(1, 4) {
 				rv.Deprecated = fmt.Sprintf("deprecated %s of m%d", rv.V, j)
 				rv.Link = "https://example.com/why"
+			} else if r.Chance(1, 8) {
+				// a deprecation that only points somewhere, without a reason text
+				rv.Link = "https://example.com/notice-without-reason"
 			}
 			rp.Versions = append(rp.Versions, rv)
 		}
